@@ -135,7 +135,23 @@ fn main() {
             st
         }).reduce(Stats::default, Stats::merge)
     };
-    let sb = sb.merge(sb2);
+    // (b3) decorations: what tools and people put around a version (ref paths, requirement operators, quotes, file and
+    // revision suffixes, white space) on either side of every accepted token string of depth <= 3, parser and check command
+    let sb3 = {
+        let base: Vec<String> = { let m = std::sync::Mutex::new(std::collections::BTreeSet::new()); for_each_string(&tokens, 3, |x, _n, _st| { if rp::parse(x).is_some() { m.lock().unwrap().insert(x.to_string()); } }); m.into_inner().unwrap().into_iter().collect() };
+        let pre_dec = ["refs/tags/", "refs/heads/", "refs/", "tags/", "origin/", "release-", "release/", "version-", "version ", "version=", "ver", "vv", "v.", "=", "==", "===", "^", "~", "~=", ">=", "@", "#", "\"", "'", "pep440:", "tag:", "r", "/", "./", "+", "-", ".", " ", "\n", "\t", "\u{a0}"];
+        let post_dec = ["^{}", "^0", "~1", "/", "\"", "'", ".tar.gz", ".whl", ",", ";", ":", "@", "!", "*", ".x", ".*", "-SNAPSHOT", "+", "-", ".", " ", "\n", "\r\n", "\u{a0}"];
+        use rayon::prelude::*;
+        base.par_iter().map(|b| {
+            let mut st = Stats::default();
+            for x in pre_dec.iter().map(|d| format!("{d}{b}")).chain(post_dec.iter().map(|d| format!("{b}{d}"))).chain([format!("\"{b}\""), format!("'{b}'"), format!("refs/tags/{b}^{{}}"), format!(" {b} ")]) {
+                st.inc("decorated_cases");
+                let v = judge(&x, true, &mut st); report(&ctx, &x, "b3", v, &mut st);
+            }
+            st
+        }).reduce(Stats::default, Stats::merge)
+    };
+    let sb = sb.merge(sb2).merge(sb3);
     // (c) full product of spelling variants
     let epoch = ["", "0!", "1!", "01!"];
     let release: &[&str] = if quick { &["1", "1.0", "01.2"] } else { &["1", "1.0", "01.2", "1.2.3.4", "0"] };
@@ -158,7 +174,9 @@ fn main() {
     // (d) boundary numerals in every numeric slot
     let nums = ["0", "00", "4294967295", "4294967296", "04294967295", "99999999999", "18446744073709551616", "340282366920938463463374607431768211456",
         // leading zeros in front of numbers at and above the integer widths (normalisation must still strip them)
-        "04294967296", "00099999999999", "0018446744073709551616", "0340282366920938463463374607431768211456", "000115792089237316195423570985008687907853269984665640564039457584007913129639936", "000000000000000000000000000001", "0000000000000000000000000000000"];
+        "04294967296", "00099999999999", "0018446744073709551616", "0340282366920938463463374607431768211456", "000115792089237316195423570985008687907853269984665640564039457584007913129639936", "000000000000000000000000000001", "0000000000000000000000000000000",
+        // trailing zeros below, at and above the integer widths (digits may be stripped from the front only)
+        "10", "100", "1000000", "4294967290", "10000000000", "42949672960", "18446744073709551610", "184467440737095516160", "100000000000000000000", "0010000000000", "00100", "0100000000000000000000"];
     let templates = ["{N}", "{N}.0", "1.{N}", "1.0.{N}.1", "{N}!1.0", "1.0a{N}", "1.0rc.{N}", "1.0.post{N}", "1.0-{N}", "1.0.dev{N}", "1.0+{N}", "1.0+a.{N}", "1.0+{N}.a",
         "{N}!{N}.{N}a{N}.post{N}.dev{N}+{N}"];
     let mut sd = Stats::default();
@@ -249,7 +267,7 @@ fn main() {
     cov.evaluations = cov.states;
     cov.traces_validated = cov.states;
     cov.distinct_nontrivial = all.get("model_accepts");
-    cov.rule = format!("(a) every string over {sigma18:?} up to length {la}; (b) every sequence of up to {lb} tokens from {tokens:?}; (c) the full product epoch{epoch:?} x release{release:?} x sep x pre-label{pre_l:?} x sep x number{num:?} x post{post:?} x dev{dev:?} x local{local:?} x prefix{vp:?}; (d) boundary numerals x numeric slots. non-trivial = evaluations the reference grammar accepts (so the normal-form / idempotence / equality clauses fire)");
+    cov.rule = format!("(a) every string over {sigma18:?} up to length {la}; (b) every sequence of up to {lb} tokens from {tokens:?}; (b3) every accepted token string of depth <= 3 with 36 leading and 24 trailing decorations (ref paths, requirement operators, quotes, file and revision suffixes, white space), parser and check command; (c) the full product epoch{epoch:?} x release{release:?} x sep x pre-label{pre_l:?} x sep x number{num:?} x post{post:?} x dev{dev:?} x local{local:?} x prefix{vp:?}; (d) boundary numerals x numeric slots. non-trivial = evaluations the reference grammar accepts (so the normal-form / idempotence / equality clauses fire)");
     cov.exhaustive = true;
     cov.samples = vec![json!("1.0-post_1.dev+A-b_01"), json!("v01!01.2_Alpha.01-1.dev+01"), json!("1.0poſt1"), json!("4294967296!1.0")];
     cov.set("clause_counts", all.to_json());
